@@ -740,7 +740,10 @@ class Exec(object):
         raised there (a format spec the value's type refuses, a missing attribute or index) leaves the function
         like any other.  Evaluated on request (contract hook eval_log_args); what the executor cannot evaluate is
         skipped and counted, the assumption 'log arguments raise nothing' then stands for that call."""
-        st = self.ghost.setdefault('log_args', {'evaluated': 0, 'skipped': 0})
+        if self.pos < self.prefix_len:
+            st = {'evaluated': 0, 'skipped': 0}     # replaying a prefix: counted by the path that created it
+        else:
+            st = self.__dict__.setdefault('log_args_stats', {'evaluated': 0, 'skipped': 0})
         try:
             for a in call.args:
                 if isinstance(a, ast.Starred):
